@@ -8,6 +8,7 @@ mod e_bufmut;
 mod ledger;
 mod e_heap;
 mod e_recycle;
+mod e_conc;
 #[global_allocator]
 static GLOBAL: ledger::Ledger = ledger::Ledger;
 
@@ -53,6 +54,7 @@ fn main() {
         "heap-replay" => e_heap::heap_replay(&mut out),
         "recycle-one" => e_recycle::recycle_one(&mut out, arg(&args, "--rounds", 1000), arg(&args, "--factor", 1)),
         "recycle" => e_recycle::recycle(&mut out, seed, n, arg(&args, "--rounds", 1000), arg(&args, "--factor", 100)),
+        "conc" => e_conc::conc(&mut out, seed, n),
         "escapes" => e_fmt::escapes(&mut out),
         "fmt" => e_fmt::fmt_cases(&mut out, seed, n, !flag(&args, "--no-pairs")),
         #[cfg(feature = "serde")]
